@@ -22,7 +22,14 @@ func (f *Frame) oname(kind string, ins ssa.Instruction) string {
 }
 
 func (f *Frame) safety(kind string, ins ssa.Instruction, what string, st *State, cond Term) {
-	if f.top && f.fc != nil && !f.fc.NoPanic {
+	root := f
+	for root.parent != nil {
+		root = root.parent
+	}
+	if root.fc != nil && !root.fc.NoPanic {
+		// `nopanic off`: absence of panics is not part of this contract; the operation is
+		// assumed to succeed on the paths that continue
+		f.u.assume(st.reach, cond)
 		return
 	}
 	f.u.oblige("nopanic", f.oname("nopanic/"+kind, ins), what, f.u.eng.pos(ins.Pos()), st.reach, cond)
